@@ -319,7 +319,7 @@ class C30(core.Check):
         import random
         err = G.reset(s, case['screen'])
         if err:
-            raise RuntimeError('SCREEN %d not available on %s' % (case['screen'], case['video']))
+            raise RuntimeError('SCREEN %d not available on %s: %s' % (case['screen'], case['video'], err))
         disp = s._impl.display
         g = disp.graphics
         text = bool(g._mode.is_text_mode)
@@ -335,7 +335,7 @@ class C30(core.Check):
                 for _ in range(st['w'] * st['h'] // 2 + 2):
                     ex('PSET (%d,%d),%d' % (r2.randrange(st['w']), r2.randrange(st['h']), r2.randrange(na)))
                 ex('GET (0,0)-(%d,%d),A%%' % (st['w'] - 1, st['h'] - 1))
-                ex('SCREEN 0')
+                ex('SCREEN 0,,0,0')
                 ex('SCREEN %d' % case['screen'])
                 s._impl.interpreter.error_num = 0
                 disp = s._impl.display
@@ -443,7 +443,7 @@ class C30(core.Check):
         text = info['text']
         calls = info['calls']
         flat = G.enc_reqs_flat(info['reqs'])
-        generic = lambda gd: '(SReqs %d (decode_reqs %d%%nat %s) %d)' % (gd, len(info['reqs']) + 1, core.zl(flat), err)
+        generic = lambda gd: '(SReqs %d (decode_reqs (Z.to_nat %d) %s) %d)' % (gd, len(info['reqs']) + 1, G.zl_chunked(flat), err)
         if k == 'pset':
             if ok and not text and len(info['reqs']) == 1:
                 (yi, xi), a = info['reqs'][0]
@@ -496,7 +496,7 @@ class C30(core.Check):
         if stmt is None:
             # VIEW without arguments or a VIEW that raised: no drawing; the model is the viewport reset / no change
             if info['status'] == [0]:
-                return ('(0 :: concat (repeat [0] %d) ++ enc_vp (vp_unset %s))' % (len(info['sel']), G.coq_vp(view)))
+                return ('(0 :: List.concat (List.repeat [0] %d) ++ enc_vp (vp_unset %s))' % (len(info['sel']), G.coq_vp(view)))
             stmt = '(SReqs 3 [] %d)' % info['status'][1]
         sel = info['sel']
         ap_idx = sel.index(info['ap']) if info['ap'] in sel else 0
